@@ -143,6 +143,13 @@ func isLoadOfField(v ssa.Value, f *types.Var) bool {
 		}
 		break
 	}
+	// a field of a struct value that was loaded as a whole (e := m.entries[i]; e.first)
+	if fv, ok := v.(*ssa.Field); ok {
+		if st, ok := fv.X.Type().Underlying().(*types.Struct); ok && fv.Field < st.NumFields() {
+			return st.Field(fv.Field).Origin() == f
+		}
+		return false
+	}
 	u, ok := v.(*ssa.UnOp)
 	if !ok || u.Op != token.MUL {
 		return false
